@@ -125,8 +125,15 @@ func trapClass(err error) string {
 func (e *engineInst) observe(m *gen.Module, fidx int, args []uint64, fuel uint32) string {
 	e.log.entries = nil
 	e.mod.ExportedGlobal("g0").(api.MutableGlobal).Set(uint64(fuel))
-	ft := m.Types[m.Funcs[fidx].Type]
-	res, err := e.mod.ExportedFunction(fmt.Sprintf("f%d", fidx)).Call(ctx, args...)
+	ft, name := funcOf(m, fidx)
+	res, err := func() (res []uint64, err error) {
+		defer func() {
+			if r := recover(); r != nil {
+				err = fmt.Errorf("GO PANIC escaped the API: %v", r)
+			}
+		}()
+		return e.mod.ExportedFunction(name).Call(ctx, args...)
+	}()
 	var sb strings.Builder
 	if err != nil {
 		sb.WriteString(trapClass(err))
@@ -156,6 +163,22 @@ func (e *engineInst) observe(m *gen.Module, fidx int, args []uint64, fuel uint32
 		fmt.Fprintf(&sb, "%x,", v)
 	}
 	return sb.String()
+}
+
+// funcOf: type and export name of a call target; fidx >= 0 is local function fidx, fidx < 0 the re-exported
+// import -fidx-1.
+func funcOf(m *gen.Module, fidx int) (gen.FuncType, string) {
+	if fidx < 0 {
+		return m.Types[m.Imports[-fidx-1]], fmt.Sprintf("i%d", -fidx-1)
+	}
+	return m.Types[m.Funcs[fidx].Type], fmt.Sprintf("f%d", fidx)
+}
+
+func oracleCall(id, fidx int) string {
+	if fidx < 0 {
+		return fmt.Sprintf("c01 callimp %d %d", id, -fidx-1)
+	}
+	return fmt.Sprintf("c01 call %d %d", id, fidx)
 }
 
 type callRec struct {
@@ -244,7 +267,7 @@ func replayFile(path string) {
 		}
 		want := "exhausted"
 		if useLean {
-			want = orc.Askf("c01 call 1 %d %d %s", call.Func, call.Fuel, strings.Join(append([]string{""}, call.Args...), " "))
+			want = orc.Askf("%s %d %s", oracleCall(1, call.Func), call.Fuel, strings.Join(append([]string{""}, call.Args...), " "))
 		}
 		if !quiet {
 			fmt.Printf("call %d %-12s %s\n", c, "lean", want)
@@ -293,7 +316,10 @@ func runProgram(r *rand.Rand, pi int, cfg gen.Config, useLean bool) {
 	ncalls := 1 + r.Intn(10)
 	for c := 0; c < ncalls; c++ {
 		fidx := r.Intn(len(m.Funcs))
-		ft := m.Types[m.Funcs[fidx].Type]
+		if len(m.Imports) > 0 && r.Intn(8) == 0 {
+			fidx = -1 - r.Intn(len(m.Imports)) // a re-exported import, called directly
+		}
+		ft, _ := funcOf(m, fidx)
 		args := make([]uint64, len(ft.Params))
 		var as []string
 		for k, p := range ft.Params {
@@ -315,7 +341,7 @@ func runProgram(r *rand.Rand, pi int, cfg gen.Config, useLean bool) {
 			return
 		}
 		if useLean {
-			want := orc.Askf("c01 call %d %d %d %s", pi, fidx, fuel, strings.Join(append([]string{""}, as...), " "))
+			want := orc.Askf("%s %d %s", oracleCall(pi, fidx), fuel, strings.Join(append([]string{""}, as...), " "))
 			if want == "exhausted" {
 				rep.Count("lean:exhausted")
 				useLean = false // the reference ran out of its step budget: state no longer comparable
